@@ -100,8 +100,11 @@ def h_target(ctx, chroms, split, avg, m=200):
     ctx.cover("split happened", len(orows) > len(nonempty))
 
 
-def h_antitarget(ctx, t_chroms, access_mode, avg, mn, m=6000, case=None):
+def h_antitarget(ctx, t_chroms, access_mode, avg, mn, m=6000, case=None, nested3=False):
     trows = sym_rows(ctx, "t", t_chroms, m)
+    if nested3:
+        # an enclosing target with two separate targets nested inside it
+        ctx.assume(And(trows[0][1] <= trows[1][1], trows[1][2] < trows[2][1], trows[2][2] <= trows[0][2]))
     if access_mode != "none":
         a = ctx.int("as0", 0, m)
         b = ctx.int("ae0", 0, m)
@@ -126,12 +129,16 @@ def h_antitarget(ctx, t_chroms, access_mode, avg, mn, m=6000, case=None):
     orows = [tuple(r) for r in out.data.itertuples(index=False)]
     ctx.observe("rows", [list(r[:3]) for r in orows])
     # accessible space per the statement
+    tchrom_set = sorted(set(t_chroms), key=t_chroms.index)
     if access_mode == "none":
-        # guessed extents: from the telomere allowance to the end of the last bait
-        last = trows[0][2]
-        for r in trows[1:]:
-            last = Max2(last, r[2]) if r[0] == trows[0][0] else last
-        acc = [("chr1", 150000, last)]  # empty here: coordinates stay below the telomere allowance
+        # guessed extents: per chromosome from the telomere allowance (150 kb) to the end of its last bait
+        acc = []
+        for c in tchrom_set:
+            ends = [r[2] for r in trows if r[0] == c]
+            last = ends[0]
+            for e_ in ends[1:]:
+                last = Max2(last, e_)
+            acc.append((c, 150000, last))
     else:
         acc = list(arows)
     shrunk = [(c, lo + PAD, hi - PAD) for c, lo, hi in acc]
@@ -145,7 +152,14 @@ def h_antitarget(ctx, t_chroms, access_mode, avg, mn, m=6000, case=None):
     for r in orows:
         ctx.claim(r[3] == "Antitarget", "antitarget bins are named Antitarget")
         ctx.claim(And(r[2] - r[1] >= mn, 2 * (r[2] - r[1]) <= 3 * avg), "antitarget bins are at least the minimum and at most 1.5x the average size")
-    ctx.claim(Implies(covered(o1, "chr1", x), F("chr1", x)), "antitargets lie inside the accessible regions shrunk by 500 and never come within 500 bases of a target")
+    for c in tchrom_set:
+        oc = [r for r in orows if r[0] == c]
+        ctx.claim(Implies(covered(oc, c, x), F(c, x)), "antitargets lie inside the accessible regions shrunk by 500 and never come within 500 bases of a target")
+        if c != "chr1":
+            lc, rc_ = ctx.int(f"l_{c}", 0, 2 * m), ctx.int(f"r_{c}", 0, 2 * m)
+            win = And(lc <= x, x < rc_, rc_ - lc >= mn, Or(*[And(lo <= lc, rc_ <= hi) for cc, lo, hi in shrunk if cc == c]), *[Or(rc_ <= lo, lc >= hi) for cc, lo, hi in padded if cc == c])
+            ctx.claim(Implies(win, covered(oc, c, x)), "every stretch of off-target accessible sequence of at least the minimum size is covered")
+            ctx.cover("second targeted chromosome", len(oc) >= 1)
     for i, a in enumerate(o1):
         for b in o1[i + 1 :]:
             ctx.claim(Or(a[2] <= b[1], b[2] <= a[1]), "antitarget bins do not overlap each other")
@@ -174,6 +188,11 @@ def _anti_cfgs():
         out.append({"t_chroms": ["chr1"], "access_mode": "one", "avg": avg, "mn": mn})
         out.append({"t_chroms": ["chr1"], "access_mode": "contigs", "avg": avg, "mn": mn})
         out.append({"t_chroms": ["chr1"], "access_mode": "none", "avg": avg, "mn": mn})
+        if avg == 1000:
+            # guessed extents need coordinates beyond the 150 kb telomere allowance: larger bins, two chromosomes
+            # whose table order (chr2, chr10) differs from the lexicographic one
+            out.append({"t_chroms": ["chr2", "chr10"], "access_mode": "none", "avg": 100000, "mn": 30000, "m": 600000})
+            out.append({"t_chroms": ["chr1", "chr1", "chr1"], "access_mode": "one", "avg": avg, "mn": mn, "nested3": True})
         for c in split_cases({"t_chroms": ["chr1", "chr1"], "access_mode": "one", "avg": avg, "mn": mn}, *_S2):
             if avg == 700:
                 c["tier"] = "thorough"
@@ -191,5 +210,5 @@ HARNESSES = [
         wall_s=240,
         thorough_wall_s=1500,
     ),
-    Harness("antitarget", h_antitarget, _anti_cfgs(), covers=["some antitargets", "targets nested", "between two targets", "contigs"], wall_s=400, thorough_wall_s=1800),
+    Harness("antitarget", h_antitarget, _anti_cfgs(), covers=["some antitargets", "targets nested", "between two targets", "contigs", "second targeted chromosome"], wall_s=400, thorough_wall_s=1800),
 ]
